@@ -243,8 +243,14 @@ def run_mixed(ctx, pandora, model, mixed, metaL, metaR, imgL, imgR):
         ctx.case((tuple(tuple(pl["names"]) for pl in pls), tuple(map(tuple, hist))))
         ctx.sample({"kind": "mixed-history", "pipelines": [pl["names"] for pl in pls], "history": hist,
                     "outcome_codes": [o[0] for o in impl]}, limit=12)
-        if impl != mr:
-            ctx.mismatch("machine_mixed_history", case, impl, mr)
+        # model and code are compared up to and including the first call that does not return successfully: a
+        # refused check (or a failed run) leaves the machine object dirty, which is outside the property
+        # ("after checking or running, successfully") and outside the theorem's guard (C01_history_guard_needed)
+        cut = next((k + 1 for k, o in enumerate(impl) if o[0] not in (0, 2)), len(impl))
+        if cut < len(impl):
+            ctx.count("mixed_calls_after_an_unsuccessful_call_not_compared", len(impl) - cut)
+        if impl[:cut] != mr[:cut]:
+            ctx.mismatch("machine_mixed_history", case, impl[:cut], mr[:cut])
         # spec: as long as the earlier calls returned successfully, a call returns what it returns on a machine
         # that has never been used (independent oracle: documented language / expected trace)
         clean = True
